@@ -1,3 +1,3 @@
 SPECIFICATION Spec
-INVARIANTS SpoofNeverAuthentic OwnAddressAuthentic OutOnlyToOwner
+INVARIANTS SpoofNeverAuthentic OwnAddressAuthentic OutOnlyToOwner MappedNeverAuthentic
 CHECK_DEADLOCK FALSE
